@@ -20,10 +20,18 @@ COMMON = [
     dict(file=F, kind="table", name="g_noteChannelsMap"),
     dict(file=F, kind="enum_anon", name="OPN_PANNING_LEFT"),
     dict(file=F, name="getOpnChannel", cls=None, must=["R4"], rename="getOpnChannel_"),
+    dict(file=F, name="s_commonFreq", cls=None, rename="s_commonFreq_"),
     dict(file=F, name="OPN2::writeRegI", cls="OPN2", static=True, post=TAP),
     dict(file=F, name="OPN2::writePan", cls="OPN2", static=True, post=[(r"g_synth\.m_chips\[(\w+)\]->writePan\(", r"chip_writePan(\1, ")]),
 ]
 REFCALL = "#define getOpnChannel(a, b, c, d) getOpnChannel_((a), &(b), &(c), &(d))   /* R4: call sites of a by-reference callee */\n"
+
+
+def extract_opn2(wd, fns):
+    specs = list(COMMON)
+    for name, kw in fns:
+        d = dict(file=F, name=name, cls="OPN2"); d.update(kw); specs.append(d)
+    return extract_play.emit(wd, specs, prelude_after={"getOpnChannel_": REFCALL})
 
 
 def _extract(wd):
@@ -98,6 +106,6 @@ def replay(g, obligation, wit, workroot):
 
 def groups(tier):
     return [Group("touchNote_contract", "harness/opn2_h.c", "h_touchNote", enforce="touchNote", replace=["log", "sqrt"],
-                  extract=_extract, required=[r"postcondition", r"assigns", r"TAP chip index"], timeout=600,
+                  extract=_extract, required=[r"postcondition", r"assigns", r"TAP chip index"], timeout=600, object_bits=9,
                   funcs=["OPN2::touchNote", "OPN2::writeRegI", "getOpnChannel"], checks=None,
                   flags=["--conversion-check", "--float-overflow-check", "--nan-check"])]
